@@ -5,6 +5,7 @@ from .. import drivers as D
 from .. import engine as E
 from ..spec import Spec, vand, veq, vsum
 from . import common as C
+from . import c19
 
 ID = "C13"
 ASSUMPTIONS = [
@@ -13,10 +14,12 @@ ASSUMPTIONS = [
     "reset mode: a first episode of every length, Dispatcher.reset(), then every history: the sums restart from zero",
     "late mode: observers created after a prefix of every length: one reward per later dispatch, sums equal minus the increase of the "
     "makespan / idle time since creation",
+    "multi mode: MultiJobShopGraphEnv over generated 2x2 instances (RNG model of C19, symbolic durations in [1,9]); the reward function is "
+    "kept or replaced through the public reward_function setter after reset(); one decision sequence per RNG outcome",
     "env mode: SingleJobShopGraphEnv (disjunctive graph, IsReady features, default and idle-time reward) - step() must return the reward "
     "emitted for that step; gymnasium/networkx/numpy run unmodified on concrete arrays, durations stay symbolic in the dispatcher",
 ]
-STUBS = ["max", "min", "int (dispatcher module only)"]
+STUBS = ["max", "min", "int (dispatcher module only)", "random (generator modules, multi mode)"]
 XHAIR_PREFIX = "c13_"   # leaf kernels re-decided by CrossHair (vf/xhair/kernels.py)
 BUDGET = {"quick": 420, "thorough": 2400}
 
@@ -42,6 +45,9 @@ def subspaces(tier):
     for rw in ("makespan", "idle"):
         out += C.structure_subspaces(s3 if tier == "quick" else s4, 2, False, mode="env", reward=rw)
         out += C.structure_subspaces(s2 if tier == "quick" else s3, 2, True, only_flexible=True, mode="env", reward=rw)
+    for rw in ("makespan", "idle"):
+        for swap in (None, "idle" if rw == "makespan" else "makespan"):     # same class again would trip the singleton guard
+            out.append(dict(mode="multi", shape=[1], machines=[[0]], reward=rw, swap=swap))
     out += C.structure_subspaces([s for s in D.shapes(3, 5) if sum(s) == 5], 3, False, canonical=True, mode="plain")
     out += C.structure_subspaces([s for s in s4 if sum(s) == 4], 2, False, canonical=True, mode="reset")
     if tier == "thorough":
@@ -51,7 +57,16 @@ def subspaces(tier):
 
 
 def cost(sp):
+    if sp["mode"] == "multi":
+        return 200
     return C.cost(sp) * {"plain": 1, "reset": 3, "env": 4, "late": 3}[sp["mode"]]
+
+
+def extra_models(sp):
+    import job_shop_lib.generation._general_instance_generator as G
+    import job_shop_lib.generation._instance_generator as I
+
+    return [(G, "random", c19.RNG), (I, "random", c19.RNG)] if sp["mode"] == "multi" else []
 
 
 def check_rewards(eng, mk, idle, spec, k, tag):
@@ -81,6 +96,8 @@ def harness(eng, sp):
     from job_shop_lib.reinforcement_learning import MakespanReward, IdleTimeReward
 
     mode = sp["mode"]
+    if mode == "multi":
+        return multi_harness(eng, sp)
     inst, desc = D.build_instance(eng, sp["shape"], sp["machines"], dmin=0)
     if mode == "env":
         return env_harness(eng, sp, inst, desc)
@@ -164,6 +181,70 @@ def env_harness(eng, sp, inst, desc):
             eng.observe("r", reward)
         if episode == 0 and desc.n_ops > 2:
             break  # second episode only on the smallest instances (cost)
+
+
+def multi_harness(eng, sp):
+    import job_shop_lib.generation._general_instance_generator as G
+    import job_shop_lib.generation._instance_generator as I
+
+    c19.RNG.reset(eng)
+    undo = []
+    if eng.mode == "conc":
+        for mod in (G, I):
+            undo.append((mod, mod.random))
+            mod.random = c19.RNG
+    try:
+        _multi(eng, sp)
+    finally:
+        for mod, val in undo:
+            mod.random = val
+
+
+def _multi(eng, sp):
+    """MultiJobShopGraphEnv on generated 2x2 instances (durations symbolic in [1,9], every RNG outcome): the reward returned by
+    step() is the one reward emitted for the step, also after the reward function was replaced through the public setter."""
+    from job_shop_lib.dispatching import DispatcherObserverConfig
+    from job_shop_lib.dispatching.feature_observers import FeatureObserverType
+    from job_shop_lib.generation import GeneralInstanceGenerator
+    from job_shop_lib.graphs import build_disjunctive_graph
+    from job_shop_lib.reinforcement_learning import MultiJobShopGraphEnv, MakespanReward, IdleTimeReward
+    from ..spec import Desc
+
+    classes = {"makespan": MakespanReward, "idle": IdleTimeReward}
+    gen = GeneralInstanceGenerator(num_jobs=2, num_machines=2, duration_range=(1, 9), seed=5)
+    env = MultiJobShopGraphEnv(gen, [DispatcherObserverConfig(FeatureObserverType.IS_READY)], graph_initializer=build_disjunctive_graph,
+                               reward_function_config=DispatcherObserverConfig(classes[sp["reward"]]), ready_operations_filter=None)
+    env.reset()
+    kind = sp["reward"]
+    if sp["swap"]:
+        env.reward_function = classes[sp["swap"]](env.dispatcher)      # public setter, on a live environment
+        kind = sp["swap"]
+    inst = env.instance
+    desc = Desc([len(j) for j in inst.jobs], [list(o.machines) for j in inst.jobs for o in j], [o.duration for j in inst.jobs for o in j])
+    spec = Spec(desc)
+    rf = env.reward_function
+    total = 0
+    tag = f"C13/multi-env/{'swapped-to-' if sp['swap'] else ''}{kind}"
+    for k in range(desc.n_ops):
+        op, m = D.choose_dispatch(eng, desc, spec)
+        try:
+            _, reward, done, trunc, _ = env.step((desc.job_of[op], m if k % 2 else -1))
+        except E.Unsupported:
+            raise
+        except Exception as ex:
+            eng.fail(tag + "/exception-in-step", f"{type(ex).__name__}: {ex}")
+            return
+        spec.apply(op, m)
+        eng.reachable("transition")
+        eng.reachable("state")
+        if len(rf.rewards) != k + 1:
+            eng.fail(tag + "/not-exactly-one-reward-per-step", f"{len(rf.rewards)} after {k + 1}")
+            return
+        total = total + reward
+        expect = 0 - spec.makespan() if kind == "makespan" else 0 - spec.idle_time()
+        eng.prove_all([(veq(reward, rf.rewards[-1]), tag + "/step-reward-is-not-the-reward-emitted-for-the-step"),
+                       (veq(total, expect), tag + "/sum-of-step-rewards-differs-from-objective")])
+        eng.observe("r", reward)
 
 
 def late_harness(eng, sp, inst, desc):
